@@ -17,6 +17,7 @@ FAMILIES = {
     "var3-brace-g": dict(n_axes=3, layout="corners", n_glyphs=5, sparse_layers=3),
     "var2-diagonal": dict(n_axes=2, layout="diagonal", n_glyphs=6, composites=0.3),
     "var3-diagonal": dict(n_axes=3, layout="diagonal", n_glyphs=5, composites=0.2, mapped=0.2),
+    "var2-ties": dict(n_axes=2, layout="offaxis", n_glyphs=6, composites=0.3, mapped=0.0, post=lambda m, r: M.tie_values(m, r)),
     "var1-noorder": dict(n_axes=1, layout="onaxis", n_glyphs=16, glyph_order="none"),
     "var2-partialorder": dict(n_axes=2, layout="onaxis", n_glyphs=12, glyph_order="partial", notdef="middle"),
     "var1-vertical": dict(n_axes=1, layout="intermediate", n_glyphs=8, vertical=True),
@@ -75,11 +76,11 @@ FAMILIES = {
 }
 
 BY_PROPERTY = {
-    "C01": ["var2-diagonal", "var3-diagonal", "static-noorder", "var1-noorder", "var2-mixed-sparse", "var2-partialorder", "var1-nonexport", "var2-nested-xform",
+    "C01": ["var2-ties", "var2-diagonal", "var3-diagonal", "static-noorder", "var1-noorder", "var2-mixed-sparse", "var2-partialorder", "var1-nonexport", "var2-nested-xform",
             "var1-mixedglyphs", "var3-mixed", "var1-vertical", "var1-cubic", "kern-many", "kern-divergent", "kern-var1"],
     "C02": ["var1-mixedglyphs", "var1-nonexport", "var2-mixed-sparse", "static-noorder", "var2-partialorder", "kern-many", "kern-var1", "kern-static"],
-    "C03": ["var2-diagonal", "var1-cubic", "var2-brace-g", "var2-cubic-sparse", "var1-onaxis", "var1-intermediate", "var2-corners", "var2-mixed-sparse", "var3-mixed", "var1-vertical", "var2-nested-xform", "var1-nonexport", "var1-noorder"],
-    "C04": ["var3-diagonal", "var1-onaxis", "var3-brace-g", "var1-intermediate", "var2-corners", "var2-mixed-sparse", "var3-mixed", "var1-vertical", "var1-vertical", "var2-partialorder"],
+    "C03": ["var2-ties", "var2-diagonal", "var1-cubic", "var2-brace-g", "var2-cubic-sparse", "var1-onaxis", "var1-intermediate", "var2-corners", "var2-mixed-sparse", "var3-mixed", "var1-vertical", "var2-nested-xform", "var1-nonexport", "var1-noorder"],
+    "C04": ["var2-ties", "var3-diagonal", "var1-onaxis", "var3-brace-g", "var1-intermediate", "var2-corners", "var2-mixed-sparse", "var3-mixed", "var1-vertical", "var1-vertical", "var2-partialorder"],
     "C06": ["c06-partial-notdef-mid", "c06-none-notdef-last", "c06-full-notdef-first", "c06-full-nonotdef", "c06-prodnames", "c06-mixed", "static-noorder", "var1-nonexport", "var2-partialorder"],
     "C08": ["c08-1axis", "c08-2axis", "c08-3axis-int", "c08-1axis"],
     "C17": ["c17-special-static", "c17-special-var", "var2-nested-xform", "c17-special-static", "var1-vertical", "c06-partial-notdef-mid", "kern-static"],
